@@ -143,7 +143,12 @@ def histogram(ctx):
             first, last = cfgv(ex, f"({tstr(bi)} == 0)"), cfgv(ex, f"({tstr(bi)} == (self.bucket_count - 1))")
             f = to_formula(h.rhs)
             nz = f_not(to_formula(("op", "==", sample, ("c", 0))))
-            if first:
+            single = [v_ for t_, v_ in ex.config if pmatch("self.bucket_count == 1", t_) is not None or pmatch("1 == self.bucket_count", t_) is not None]
+            if single and single[0]:
+                # one bucket is the whole range [0, inf): first and last at once (F18)
+                arm, want = "single", True
+                text = "with a single bucket every sample is counted in it"
+            elif first:
                 arm, want = "first", f_not(nz)
                 text = "bucket 0 counts sample == 0"
             elif last:
@@ -206,7 +211,8 @@ def histogram(ctx):
                                 ok = dv in (pat("C(1 << self.sample_width) - 1"), pat("C((1 << self.sample_width) - 1)"), pat("(1 << self.sample_width) - 1"))
             ctx.check(ok, "C31.histogram-" + reg, w[0].fact.site if w else comp.site, f"HwExpHistogram.{reg}'[{cfg_name(ex)}]", found=tstr(d)[:160] if d is not None else "none",
                       required=f"{reg}' = {helper}({reg}, [sample of each running way, else a default {text}])")
-    ctx.check(arms == {"first", "middle", "last"}, "C31.bucket-arm", comp.site, "HwExpHistogram.bucket.arms", found=str(sorted(arms)), required="first, middle and last bucket arms analysed", nontrivial=False)
+    ctx.check(arms == {"first", "middle", "last", "single"}, "C31.bucket-arm", comp.site, "HwExpHistogram.bucket.arms", found=str(sorted(arms)),
+              required="the buckets partition the samples for every bucket count: first / middle / last arms, and the single-bucket case (the first bucket is then also the last: it takes everything)")
     mn = comp.init_attr("min")
     ok = mn is not None and dict(mn[3]).get("init") in (pat("(1 << self.sample_width) - 1"),)
     ctx.check(ok, "C31.histogram-min-init", comp.site, "HwExpHistogram.min.init", found=tstr(mn) if mn else "none", required="min starts at the largest sample value")
